@@ -136,7 +136,15 @@ MenuAxis(n) == IF n = 0 THEN {<<0>>} ELSE {<<n>>, [j \in 1..n |-> 1]} \cup (IF n
 RECURSIVE MenuChunkings(_)
 MenuChunkings(sh) == IF sh = <<>> THEN {<<>>}
                      ELSE {<<c>> \o r : c \in MenuAxis(Head(sh)), r \in MenuChunkings(Tail(sh))}
-ChunkingsOf(sh) == IF Len(sh) <= MaxChunkNd THEN NDChunkings(sh) ELSE MenuChunkings(sh)
+\* ... plus chunkings with one zero-width block (front, back, inside) on one axis, the other axes in one
+\* block or in unit blocks: dask produces such chunkings itself (boolean indexing, slicing, from_array)
+ZAxis(n) == IF n = 0 THEN {} ELSE {<<0, n>>, <<n, 0>>} \cup (IF n >= 2 THEN {<<1, 0, n - 1>>} ELSE {})
+PlainAxis(n) == IF n = 0 THEN {<<0>>} ELSE {<<n>>, [j \in 1..n |-> 1]}
+RECURSIVE ZeroAt(_, _)
+ZeroAt(sh, d) == IF sh = <<>> THEN {<<>>}
+                 ELSE {<<c>> \o r : c \in (IF d = 1 THEN ZAxis(Head(sh)) ELSE PlainAxis(Head(sh))), r \in ZeroAt(Tail(sh), d - 1)}
+ZeroChunkings(sh) == UNION {ZeroAt(sh, d) : d \in DOMAIN sh}
+ChunkingsOf(sh) == (IF Len(sh) <= MaxChunkNd THEN NDChunkings(sh) ELSE MenuChunkings(sh)) \cup ZeroChunkings(sh)
 ChunkingCases == [op: {"chunkings"}, shape: AllInputShapes]
 
 Expected(c) == IF c.op = "chunkings" THEN [err |-> FALSE, shape |-> c.shape, cells |-> <<>>, all |-> SetToSeq(ChunkingsOf(c.shape))]
